@@ -127,6 +127,14 @@ func runC18(rc *RunCtx) {
 				}
 			}
 		}
+		// four periods: a block can mint for three or four periods at once
+		for _, r1 := range red[:4] {
+			for _, r2 := range red[1:5] {
+				for _, r3 := range red[:4] {
+					cfgs = append(cfgs, mintCfg{Periods: []mp{withEnd(r1, 10*time.Second), withEnd(r2, 20*time.Second), withEnd(r3, 30*time.Second), red[4]}, Denom: c19Denom})
+				}
+			}
+		}
 		gridN := 6
 		if rc.Thorough() {
 			gridN = 8
